@@ -5,6 +5,8 @@ stop rule, then Delete / DeleteMulti); the theorems are about those loops run on
 model, and use only the read theorems (`consume_ok`) and the invariant.
 -/
 import Klev.Proofs.HelpersOK
+import Klev.Proofs.TrimFind
+import Klev.Proofs.TrimsOK
 namespace Klev.C15
 
 /-- The cursor loop under every helper: iterating Consume from `OffsetOldest` with any
@@ -31,8 +33,286 @@ theorem findByAge_prefix (l : Log) (h : Inv l) (t : Int) :
     | .err _ => True :=
   Klev.findByAge_prefix l h t
 
+open Helpers
+
+/-! ### Clause "FindBy… select a prefix of the live sequence and nothing else"
+
+`MemIdx l` ("a segment whose index is in memory has an index file") is the extra clause the
+`Stat` theorem needs; it holds in every state reachable from a read-write open (C13:
+`reach_memIdx`). `FindByCount` and `FindBySize` call `Stat`. -/
+
+/-- Closed form of `FindByOffset` for every `before ≥ -3` (`OffsetOldest`, `OffsetNewest`,
+every real offset — below, inside and above the live range): exactly the offsets of the
+live messages below the bound, and the call only loads indexes. -/
+theorem findByOffset_eq (l : Log) (h : Inv l) (before : Int) (hb : -4 < before) :
+    ∃ l', Loaded l l' ∧ findByOffset l before = (l', .ok
+      (if before = offsetOldest then [] else
+        Spec.offsOf ((abs l).live.filter (fun m => decide (m.off <
+          (if before = offsetNewest then (abs l).next else before)))))) :=
+  Klev.findByOffset_eq l h before hb
+
+/-- Documented model artefact outside the quantifier (`before ≤ -4`, not an offset the API
+defines): the model's loop is given no fuel and reports `.err .panic`, which
+`FindByOffsetOK` rejects; the Go loop simply does not iterate and returns the empty set.
+This is why `findByOffset_ok` carries `-4 < before`. -/
+theorem findByOffset_panic (l : Log) (h : Inv l) (before : Int) (hb : before ≤ -4) :
+    (findByOffset l before).2 = .err .panic ∧
+      ¬ Spec.FindByOffsetOK (abs l) before (findByOffset l before).2 :=
+  Klev.findByOffset_panic l h before hb
+
+/-- **FindByCount** selects exactly the offsets of the first `n − max` live messages (none
+when `n ≤ max`): a prefix and nothing else; it only loads indexes. Every `max` (negative,
+below, at, above the count). -/
+theorem findByCount_ok (l : Log) (h : Inv l) (hmi : MemIdx l) (max : Int) :
+    Spec.FindByCountOK (abs l) max (findByCount l max).2 ∧ Loaded l (findByCount l max).1 :=
+  Klev.findByCount_ok l h hmi max
+
+/-- Closed form of `FindByCount`. -/
+theorem findByCount_eq (l : Log) (h : Inv l) (hmi : MemIdx l) (max : Int) :
+    ∃ l', Loaded l l' ∧ findByCount l max =
+      (l', .ok (Spec.offsOf ((abs l).live.take (((abs l).live.length : Int) - max).toNat))) :=
+  Klev.findByCount_eq l h hmi max
+
+/-- **FindBySize**: with `st` the result of `Stat` (whose size is exactly the total size of
+all segment files), it selects the offsets of the shortest prefix of the live messages
+whose estimated removal (`Size(m)` = record size in `NewSegmentsVersion` + index item size)
+brings the size below `sz`; everything if that is impossible, nothing if the size is
+already below. Every `sz` from 0 to above the current size. -/
+theorem findBySize_ok (l : Log) (h : Inv l) (hmi : MemIdx l) (sz : Int) :
+    ∃ st, (l.stat).2 = .ok st ∧
+      st.size = ((l.stat).1.segs.map (segFileSize l.opts.params)).sum ∧
+      Spec.FindBySizeOK (abs l) (fun m => recSize l.opts.nsv m + l.opts.params.size) st.size sz
+        (findBySize l sz).2 ∧
+      Loaded l (findBySize l sz).1 :=
+  Klev.findBySize_ok l h hmi sz
+
+/-- Closed form of `FindBySize`. -/
+theorem findBySize_eq (l : Log) (h : Inv l) (hmi : MemIdx l) (sz : Int) :
+    ∃ st l', (l.stat).2 = .ok st ∧ Loaded l l' ∧ findBySize l sz =
+      (l', .ok (Spec.offsOf (Spec.sizePrefix (sizeOf l) sz st.size (abs l).live))) :=
+  Klev.findBySize_eq l h hmi sz
+
+/-- The `FindBySize` selection is a prefix, … -/
+theorem sizePrefix_prefix (est : Msg → Int) (sz : Int) :
+    ∀ (ms : List Msg) (total : Int), Spec.sizePrefix est sz total ms <+: ms :=
+  Klev.sizePrefix_prefix est sz
+
+/-- … it brings the estimate below `sz` or is everything ("size below the target unless the
+log is empty"), … -/
+theorem sizePrefix_reaches (est : Msg → Int) (sz : Int) :
+    ∀ (ms : List Msg) (total : Int),
+      total - ((Spec.sizePrefix est sz total ms).map est).sum < sz ∨ Spec.sizePrefix est sz total ms = ms :=
+  Klev.sizePrefix_reaches est sz
+
+/-- … and no shorter prefix does ("without removing more than the size estimate requires"):
+before each selected message the estimate was still `≥ sz`. -/
+theorem sizePrefix_minimal (est : Msg → Int) (sz : Int) :
+    ∀ (ms : List Msg) (total : Int) (k : Nat), k < (Spec.sizePrefix est sz total ms).length →
+      sz ≤ total - ((ms.take k).map est).sum :=
+  Klev.sizePrefix_minimal est sz
+
+/-- What `FindByAge` returns when it returns: the offsets of `takeWhile (time ≤ before)` of a
+prefix of the live messages; it only loads indexes. -/
+theorem findByAge_res (l : Log) (h : Inv l) (before : Int) :
+    Loaded l (findByAge l before).1 ∧
+    ∀ offs, (findByAge l before).2 = .ok offs →
+      ∃ P R, P ++ R = (abs l).live ∧
+        offs = Spec.offsOf (P.takeWhile (fun m => decide (m.time ≤ before))) :=
+  Klev.findByAge_res l h before
+
+/-- `FindByAge`, when it succeeds, against the L0 relation without its monotone clause
+(`mono := false`): a prefix of the live sequence, no message newer than `t` selected;
+invariant and content untouched. -/
+theorem findByAge_ok_of_ok (l : Log) (h : Inv l) (t : Int) (offs : List Int)
+    (hr : (findByAge l t).2 = .ok offs) :
+    Spec.FindByAgeOK false (abs l) t (.ok offs) ∧
+    Inv (findByAge l t).1 ∧ abs (findByAge l t).1 = abs l :=
+  Klev.findByAge_ok_of_ok l h t offs hr
+
+/-- **Documented failing case.** `FindByAgeOK` rejects every error, but on an *empty*
+read-write log with the time index on (a state satisfying the invariant), `GetByTime`
+answers `ErrInvalidOffset` (as `GetByTimeOK` allows) and `FindByAge` passes the error on:
+`FindByAge`/`TrimByAge` on an empty time-indexed log returns `ErrInvalidOffset` instead of
+"nothing to trim". The relation fails there for both values of `mono`; this is why
+`findByAge_prefix` / `findByAge_ok_of_ok` are conditional on a successful answer. -/
+theorem findByAge_empty_times :
+    Inv emptyTimesLog ∧ (abs emptyTimesLog).live = [] ∧
+    (findByAge emptyTimesLog 5).2 = .err .invalidOffset ∧
+    ∀ mono, ¬ Spec.FindByAgeOK mono (abs emptyTimesLog) 5 (findByAge emptyTimesLog 5).2 :=
+  Klev.findByAge_empty_times
+
+/-- Edge case behind `scan_visits_all`: the L0 relation `ConsumeOK` alone would allow a
+cursor started at `OffsetOldest` to be sent to `OffsetNewest` with an empty chunk on a
+non-empty log; the model never does (`consume_chunk`), which is what the cursor theorem
+uses beyond `consume_ok`. -/
+theorem consumeOK_allows_lost_cursor :
+    ∃ s : Spec, Spec.WF s ∧ s.live ≠ [] ∧
+      Spec.ConsumeOK s offsetOldest 1 (.ok (offsetNewest, [])) ∧
+      Spec.ConsumeOK s offsetOldest 1 (.ok (0, [])) :=
+  Klev.consumeOK_allows_lost_cursor
+
+/-! ### Clause "after the Trim…Multi call no message outside the prefix is touched and the bound holds"
+
+`thenDelete true (findX l b)` is `TrimByXMulti`; `thenDelete false …` is `TrimByX`. -/
+
+/-- **TrimByOffsetMulti** on a read-write log, every `before ≥ -3`: no error; `OffsetOldest`
+removes nothing; otherwise, with `b` = `NextOffset` for `OffsetNewest` and `before` itself
+for a real offset, afterwards **no live offset is below `b`**, exactly the live messages
+below `b` were removed and reported, everything else is untouched, `NextOffset` is kept. -/
+theorem trimByOffsetMulti_bound (l : Log) (h : Inv l) (hro : l.opts.readonly = false) (before : Int)
+    (hb : -4 < before) :
+    let r := thenDelete true (findByOffset l before)
+    let b := if before = offsetNewest then (abs l).next else before
+    Inv r.1 ∧ r.2.err = none ∧ (abs r.1).next = (abs l).next ∧
+    (before = offsetOldest → (abs r.1).live = (abs l).live ∧ r.2.msgs = []) ∧
+    (before ≠ offsetOldest →
+      (abs r.1).live = (abs l).live.filter (fun m => decide (b ≤ m.off)) ∧
+      (∀ m ∈ (abs r.1).live, b ≤ m.off) ∧
+      (∀ d, d ∈ r.2.msgs ↔ d ∈ (abs l).live ∧ d.off < b) ∧
+      r.2.msgs = (abs l).live.filter (fun m => decide (m.off < b))) :=
+  Klev.trimByOffsetMulti_bound l h hro before hb
+
+/-- `TrimByOffsetMulti(OffsetNewest)` empties the log. -/
+theorem trimByOffsetMulti_newest (l : Log) (h : Inv l) (hro : l.opts.readonly = false) :
+    (abs (thenDelete true (findByOffset l offsetNewest)).1).live = [] :=
+  Klev.trimByOffsetMulti_newest l h hro
+
+/-- **TrimByCountMulti** on a read-write log, every `max`: no error; exactly the first
+`n − max` live messages are removed and reported, the others are untouched; for `0 ≤ max`
+**exactly `min(count, max)` messages are left**. -/
+theorem trimByCountMulti_bound (l : Log) (h : Inv l) (hro : l.opts.readonly = false) (hmi : MemIdx l)
+    (max : Int) :
+    let r := thenDelete true (findByCount l max)
+    let K := (((abs l).live.length : Int) - max).toNat
+    Inv r.1 ∧ r.2.err = none ∧ (abs r.1).next = (abs l).next ∧
+    (abs r.1).live = (abs l).live.drop K ∧
+    r.2.msgs = (abs l).live.take K ∧
+    (0 ≤ max → ((abs r.1).live.length : Int) = min ((abs l).live.length : Int) max) :=
+  Klev.trimByCountMulti_bound l h hro hmi max
+
+/-- **TrimBySizeMulti** on a read-write log, every `sz`: no error; with `S` the `Stat` size
+and `P` the `FindBySize` selection, exactly `P` (a prefix) is removed and reported, the rest
+is untouched; **the estimate `S − Σ Size(P)` is below `sz` unless the log is now empty, and
+no shorter prefix achieves that** (not more removed than the size estimate requires). -/
+theorem trimBySizeMulti_bound (l : Log) (h : Inv l) (hro : l.opts.readonly = false) (hmi : MemIdx l)
+    (sz : Int) :
+    ∃ st, (l.stat).2 = .ok st ∧
+    let r := thenDelete true (findBySize l sz)
+    let P := Spec.sizePrefix (sizeOf l) sz st.size (abs l).live
+    Inv r.1 ∧ r.2.err = none ∧ (abs r.1).next = (abs l).next ∧
+    (abs r.1).live = (abs l).live.drop P.length ∧ P = (abs l).live.take P.length ∧
+    r.2.msgs = P ∧
+    (st.size - (P.map (sizeOf l)).sum < sz ∨ (abs r.1).live = []) ∧
+    (∀ k, k < P.length → sz ≤ st.size - (((abs l).live.take k).map (sizeOf l)).sum) :=
+  Klev.trimBySizeMulti_bound l h hro hmi sz
+
+/-! ### Both modes, any handle: only selected messages go, and exactly the reported ones -/
+
+/-- After a `Find*` that only loaded indexes and returned the offsets of a list `Sel` of live
+messages, `thenDelete` (single `Delete` or `DeleteMulti`, any handle, whether or not a pass
+fails) removes exactly what it reports, and reports only messages of `Sel`. -/
+theorem thenDelete_any (l l1 : Log) (h : Inv l) (hld : Loaded l l1) (multi : Bool) (Sel : List Msg)
+    (hsel : ∀ x ∈ Sel, x ∈ (abs l).live) :
+    let r := thenDelete multi (l1, .ok (Spec.offsOf Sel))
+    Inv r.1 ∧ (abs r.1).live = Spec.removeAll (abs l).live r.2.msgs ∧ (abs r.1).next = (abs l).next ∧
+    r.2.msgs.Nodup ∧ ∀ d ∈ r.2.msgs, d ∈ Sel :=
+  Klev.thenDelete_any l l1 h hld multi Sel hsel
+
+/-- **TrimByOffset / TrimByOffsetMulti**, any handle: only live messages below the bound are
+removed (none for `OffsetOldest`), and exactly the reported ones. -/
+theorem trimByOffset_any (l : Log) (h : Inv l) (before : Int) (hb : -4 < before) (multi : Bool) :
+    let r := thenDelete multi (findByOffset l before)
+    let b := if before = offsetNewest then (abs l).next else before
+    Inv r.1 ∧ (abs r.1).live = Spec.removeAll (abs l).live r.2.msgs ∧ (abs r.1).next = (abs l).next ∧
+    r.2.msgs.Nodup ∧
+    ∀ d ∈ r.2.msgs, d ∈ (abs l).live ∧ before ≠ offsetOldest ∧ d.off < b :=
+  Klev.trimByOffset_any l h before hb multi
+
+/-- **TrimByCount / TrimByCountMulti**, any handle: only messages among the first `n − max`
+are removed, so at least `min n max` remain. -/
+theorem trimByCount_any (l : Log) (h : Inv l) (hmi : MemIdx l) (max : Int) (multi : Bool) :
+    let r := thenDelete multi (findByCount l max)
+    let K := (((abs l).live.length : Int) - max).toNat
+    Inv r.1 ∧ (abs r.1).live = Spec.removeAll (abs l).live r.2.msgs ∧ (abs r.1).next = (abs l).next ∧
+    r.2.msgs.Nodup ∧ (∀ d ∈ r.2.msgs, d ∈ (abs l).live.take K) ∧
+    (∀ m ∈ (abs l).live.drop K, m ∈ (abs r.1).live) :=
+  Klev.trimByCount_any l h hmi max multi
+
+/-- **TrimBySize / TrimBySizeMulti**, any handle: only messages of the `FindBySize`
+selection are removed. -/
+theorem trimBySize_any (l : Log) (h : Inv l) (hmi : MemIdx l) (sz : Int) (multi : Bool) :
+    ∃ st, (l.stat).2 = .ok st ∧
+    let r := thenDelete multi (findBySize l sz)
+    Inv r.1 ∧ (abs r.1).live = Spec.removeAll (abs l).live r.2.msgs ∧ (abs r.1).next = (abs l).next ∧
+    r.2.msgs.Nodup ∧ ∀ d ∈ r.2.msgs, d ∈ Spec.sizePrefix (sizeOf l) sz st.size (abs l).live :=
+  Klev.trimBySize_any l h hmi sz multi
+
+/-- **TrimByAge / TrimByAgeMulti**, any handle, whatever `FindByAge` answers (including the
+error of `findByAge_empty_times`): **no message newer than the given time is removed**, only
+live messages are, and exactly the reported ones; everything else is untouched. -/
+theorem trimByAge_any (l : Log) (h : Inv l) (t : Int) (multi : Bool) :
+    let r := thenDelete multi (findByAge l t)
+    Inv r.1 ∧ (abs r.1).live = Spec.removeAll (abs l).live r.2.msgs ∧ (abs r.1).next = (abs l).next ∧
+    r.2.msgs.Nodup ∧ ∀ d ∈ r.2.msgs, d ∈ (abs l).live ∧ d.time ≤ t :=
+  Klev.trimByAge_any l h t multi
+
+/-! ### The quantifier "for all reachable states" -/
+
+/-- From a read-write open of an empty directory, after any history, `Stat` (on which
+`FindByCount` / `FindBySize` rest) succeeds and counts exactly the live messages and the
+segments. -/
+theorem stat_reachable (oo : OpenOpts) (hrw : oo.opts.readonly = false) (ops : List Op) :
+    ∃ l0, Log.open [] oo = .ok l0 ∧
+      ∃ st, ((runOps l0 ops).stat).2 = .ok st ∧
+        st.messages = ((abs (runOps l0 ops)).live.length : Int) ∧
+        st.segments = ((runOps l0 ops).segs.length : Int) ∧
+        Spec.StatOK (abs (runOps l0 ops)) ((runOps l0 ops).stat).2 :=
+  Klev.stat_reachable oo hrw ops
+
+/-- The three `Find*` selections that do not depend on times, on every state reachable from
+a read-write open of an empty directory (multi-segment, with holes, after reopens …), with
+no hypothesis on the state. -/
+theorem finds_ok_reachable (oo : OpenOpts) (hrw : oo.opts.readonly = false) (ops : List Op) :
+    ∃ l0, Log.open [] oo = .ok l0 ∧
+      (∀ before, -4 < before →
+        Spec.FindByOffsetOK (abs (runOps l0 ops)) before (findByOffset (runOps l0 ops) before).2) ∧
+      (∀ max, Spec.FindByCountOK (abs (runOps l0 ops)) max (findByCount (runOps l0 ops) max).2) ∧
+      (∀ sz, ∃ st, ((runOps l0 ops).stat).2 = .ok st ∧
+        Spec.FindBySizeOK (abs (runOps l0 ops))
+          (fun m => recSize (runOps l0 ops).opts.nsv m + (runOps l0 ops).opts.params.size)
+          st.size sz (findBySize (runOps l0 ops) sz).2) := by
+  obtain ⟨l0, ho, hinv, hmi⟩ := Klev.reach_memIdx oo hrw ops
+  refine ⟨l0, ho, fun before hb => (Klev.findByOffset_ok _ hinv before hb).1,
+    fun max => (Klev.findByCount_ok _ hinv hmi max).1, fun sz => ?_⟩
+  obtain ⟨st, hst, _, hok, _⟩ := Klev.findBySize_ok _ hinv hmi sz
+  exact ⟨st, hst, hok⟩
+
 end Klev.C15
 
 #print axioms Klev.C15.scan_visits_all
 #print axioms Klev.C15.findByOffset_ok
 #print axioms Klev.C15.findByAge_prefix
+#print axioms Klev.C15.findByOffset_eq
+#print axioms Klev.C15.findByOffset_panic
+#print axioms Klev.C15.findByCount_ok
+#print axioms Klev.C15.findByCount_eq
+#print axioms Klev.C15.findBySize_ok
+#print axioms Klev.C15.findBySize_eq
+#print axioms Klev.C15.sizePrefix_prefix
+#print axioms Klev.C15.sizePrefix_reaches
+#print axioms Klev.C15.sizePrefix_minimal
+#print axioms Klev.C15.findByAge_res
+#print axioms Klev.C15.findByAge_ok_of_ok
+#print axioms Klev.C15.findByAge_empty_times
+#print axioms Klev.C15.consumeOK_allows_lost_cursor
+#print axioms Klev.C15.trimByOffsetMulti_bound
+#print axioms Klev.C15.trimByOffsetMulti_newest
+#print axioms Klev.C15.trimByCountMulti_bound
+#print axioms Klev.C15.trimBySizeMulti_bound
+#print axioms Klev.C15.thenDelete_any
+#print axioms Klev.C15.trimByOffset_any
+#print axioms Klev.C15.trimByCount_any
+#print axioms Klev.C15.trimBySize_any
+#print axioms Klev.C15.trimByAge_any
+#print axioms Klev.C15.stat_reachable
+#print axioms Klev.C15.finds_ok_reachable
